@@ -267,8 +267,12 @@ func (l *Gsub2_1) apply(ctx *Context, a, b int) int {
 	}
 
 	repl := l.Repl[idx]
-	seq[a].GID = repl[0]
 	k := len(repl)
+	if k == 0 {
+		// The specification does not allow empty replacement sequences.
+		return -1
+	}
+	seq[a].GID = repl[0]
 	if k > 1 {
 		// insert k-1 new glyphs after position a
 		seq = slices.Grow(seq, k-1)
